@@ -47,7 +47,7 @@ func init() {
 		// purge racing a concurrent Add and the dispatcher
 		Register(&Scenario{
 			Name:  name("purge/%s", kp),
-			Props: []string{"C10", "C01", "C05", "C06", "C17"},
+			Props: []string{"C10", "C01", "C03", "C05", "C06", "C17"},
 			Mode:  "NB", Quick: 2, Thorough: 3, Shards: 8,
 			Body: func(h *H) {
 				h.CrashProp = "C10"
@@ -70,7 +70,7 @@ func init() {
 		}
 		Register(&Scenario{
 			Name:  name("qclose/%s", kp),
-			Props: []string{"C10", "C01", "C17"},
+			Props: []string{"C10", "C01", "C03", "C17"},
 			Mode:  "NB", Quick: 2, Thorough: 3, Shards: 4,
 			Body: func(h *H) {
 				h.CrashProp = "C10"
@@ -273,6 +273,29 @@ func init() {
 					h.viol("C18", "C18.tune-peak", fmt.Sprintf("peak of %d simultaneous jobs after TunePool(3) with 4 jobs waiting", w.Peak))
 				}
 				h.OpenAll(0, 1, 2, 3)
+				h.End()
+			},
+		})
+	}
+	// TunePool down racing the dispatcher's wake-up: jobs dispatched after the return obey the new limit
+	for _, kp := range []kindPair{{Plain, Fifo}, {ErrW, Prio}} {
+		kp := kp
+		Register(&Scenario{
+			Name:  name("tune-race/%s", kp),
+			Props: []string{"C02", "C03"},
+			Mode:  "NB", Quick: 2, Thorough: 3, Shards: 8,
+			Body: func(h *H) {
+				h.Shape = Gated
+				w := h.NewWorker(kp.W, 2)
+				q := w.Bind(kp.Q, nil)
+				w.Pause()
+				for i := 0; i < 3; i++ {
+					q.Add(i, AddOpt{Prio: i})
+				}
+				go func() { w.Resume() }()
+				go func() { w.TunePool(1) }()
+				h.Quiesce(false)
+				h.OpenAll(0, 1, 2)
 				h.End()
 			},
 		})
